@@ -117,6 +117,9 @@ func (c *CloneConfigurationLoader) cloneConfigToCloneRequest(cloneCfg *config.Py
 		ShowContent:         domain.BoolValue(cloneCfg.Output.ShowContent, false),
 		SortBy:              sortBy,
 		GroupClones:         domain.BoolValue(cloneCfg.Output.GroupClones, true),
+		GroupMode:           cloneCfg.Grouping.Mode,
+		GroupThreshold:      cloneCfg.Grouping.Threshold,
+		KCoreK:              cloneCfg.Grouping.KCoreK,
 		MinSimilarity:       cloneCfg.Filtering.MinSimilarity,
 		MaxSimilarity:       cloneCfg.Filtering.MaxSimilarity,
 		CloneTypes:          cloneTypes,
